@@ -1,8 +1,10 @@
 /-
 C14 — Beats are exact fractions that snap to the 1/48 grid only from inexact input.
-Property theorems only; helper lemmas live in Simfile/Lemmas/Round.lean.
+Also the text forms: str(Beat) / Beat.from_str and BeatValues.__str__ / BeatValues.from_str round trips.
+Property theorems only; helper lemmas live in Simfile/Lemmas/Round.lean and Simfile/Lemmas/BeatValues.lean.
 -/
 import Simfile.Lemmas.Round
+import Simfile.Lemmas.BeatValues
 namespace Simfile.C14
 open Simfile
 
@@ -78,5 +80,90 @@ example : mkBeat (.inexact (3 / 10)) = 14 / 48 := by
   simpa [mkBeat] using this
 example : |((7 : Rat) / 48 + 1 / 2000) - ((7 : Int) : Rat) / 48| ≤ 6 / 10000 := by
   rw [abs_le]; constructor <;> norm_num
+
+/-! ### the text forms: `str(Beat)`, `Beat.from_str`, `BeatValues.__str__`, `BeatValues.from_str` -/
+
+/-- the printed text of ANY beat (sign, integer digits, '.', exactly three fraction digits; also the
+"-0.000" of a tiny negative beat) is read by the decimal parser as the beat rounded to three places -/
+theorem text_parses_to_round3 (x : Rat) : parseDecimal (beatToStr x) = some (round3 x) :=
+  parseDecimal_beatToStr x
+
+/-- the printed three-decimal text of every tick-aligned beat parses back to that beat -/
+theorem beat_text_roundtrip (n : Int) : beatFromStr (beatToStr ((n : Rat) / 48)) = some ((n : Rat) / 48) := by
+  rw [beatFromStr_beatToStr, str_roundtrip]
+
+theorem onGrid_snap {x : Rat} (h : onGrid x) : roundToTick (round3 x) = x := by
+  obtain ⟨n, rfl⟩ := h
+  rw [ticks_is_48]
+  exact str_roundtrip n
+
+/-- `BeatValues.from_str(str(bv)) == bv` for every table whose beats are tick-aligned and whose value
+tokens contain no ',' or '=' and no white space at either end (`TokenOK`; the empty table included) -/
+theorem beatvalues_roundtrip (rows : List BVRow) (h : ∀ r ∈ rows, onGrid r.beat ∧ TokenOK r.value) :
+    beatValuesFromStr (some (beatValuesToStr rows)) = some rows := by
+  rw [beatValues_print_read rows (fun r hr => (h r hr).2)]
+  congr 1
+  conv_rhs => rw [← List.map_id rows]
+  apply List.map_congr_left
+  intro r hr
+  rw [onGrid_snap (h r hr).1]
+  rfl
+
+/-- off-grid beats come back snapped: reading a printed table always gives tick-aligned beats -/
+theorem beatvalues_print_read (rows : List BVRow) (h : ∀ r ∈ rows, TokenOK r.value) :
+    beatValuesFromStr (some (beatValuesToStr rows)) =
+      some (rows.map fun r => { beat := roundToTick (round3 r.beat), value := r.value }) :=
+  beatValues_print_read rows h
+
+/-- white space around the row texts is ignored: surrounding each comma-free row text `t.2.1` by
+arbitrary all-`pyIsSpace` strings `t.1`, `t.2.2` does not change the result of parsing, whatever the
+row texts are (well-formed or not) -/
+theorem beatvalues_blanks_ignored (items : List (Str × Str × Str))
+    (hb : ∀ t ∈ items, isBlank t.1 = true ∧ isBlank t.2.2 = true) (hc : ∀ t ∈ items, ',' ∉ t.2.1) :
+    beatValuesFromStr (some (joinWith [','] (items.map fun t => t.1 ++ t.2.1 ++ t.2.2))) =
+      beatValuesFromStr (some (joinWith [','] (items.map fun t => t.2.1))) :=
+  beatValues_padded items
+    (fun t ht => ⟨(blank_iff_isBlank _).mpr (hb t ht).1, (blank_iff_isBlank _).mpr (hb t ht).2⟩) hc
+
+/-- … so a table written with any white space (not only the newline of `__str__`) around its rows
+reads back as the same rows -/
+theorem beatvalues_roundtrip_padded (items : List (Str × BVRow × Str))
+    (hb : ∀ t ∈ items, isBlank t.1 = true ∧ isBlank t.2.2 = true)
+    (h : ∀ t ∈ items, onGrid t.2.1.beat ∧ TokenOK t.2.1.value) :
+    beatValuesFromStr (some (joinWith [','] (items.map fun t => t.1 ++ rowText t.2.1 ++ t.2.2))) =
+      some (items.map (·.2.1)) := by
+  rw [beatValues_rows_padded items
+    (fun t ht => ⟨(blank_iff_isBlank _).mpr (hb t ht).1, (blank_iff_isBlank _).mpr (hb t ht).2⟩)
+    (fun t ht => (h t ht).2)]
+  congr 1
+  apply List.map_congr_left
+  intro t ht
+  rw [onGrid_snap (h t ht).1]
+
+/-- no text, the empty text and an all-blank text are the empty table -/
+theorem empty_is_empty : beatValuesFromStr none = some [] ∧ beatValuesFromStr (some []) = some [] ∧
+    (∀ s, isBlank s = true → beatValuesFromStr (some s) = some []) := by
+  refine ⟨rfl, rfl, ?_⟩
+  intro s hs
+  rw [beatValuesFromStr_some', strip_all_space ((blank_iff_isBlank s).mpr hs)]
+  rfl
+
+-- non-vacuity: a concrete table (zero, a negative tick, a large tick), its text, and the hypotheses
+private def exRows : List BVRow :=
+  [⟨0, "120".toList⟩, ⟨-1 / 48, "-60.5".toList⟩, ⟨48017 / 48, "1E+2".toList⟩]
+example : beatValuesToStr exRows = "0.000=120,\n-0.021=-60.5,\n1000.354=1E+2".toList := by decide +kernel
+private theorem exRows_ok : ∀ r ∈ exRows, onGrid r.beat ∧ TokenOK r.value := by
+  intro r hr
+  simp only [exRows, List.mem_cons, List.not_mem_nil, or_false] at hr
+  rcases hr with rfl | rfl | rfl
+  · exact ⟨⟨0, by norm_num⟩, by decide⟩
+  · exact ⟨⟨-1, by rw [ticks_is_48]; norm_num⟩, by decide⟩
+  · exact ⟨⟨48017, by rw [ticks_is_48]; norm_num⟩, by decide⟩
+example : beatValuesFromStr (some "0.000=120,\n-0.021=-60.5,\n1000.354=1E+2".toList) = some exRows := by
+  have h : beatValuesToStr exRows = "0.000=120,\n-0.021=-60.5,\n1000.354=1E+2".toList := by decide +kernel
+  rw [← h]; exact beatvalues_roundtrip exRows exRows_ok
+example : beatToStr (-1 / 2001) = "-0.000".toList ∧ parseDecimal "-0.000".toList = some 0 := by
+  constructor <;> decide +kernel
+example : isBlank " \t\n".toList = true := by decide
 
 end Simfile.C14
